@@ -61,16 +61,15 @@ def scalarItems (unm : Str → Option Val) (s : Option Sch) : List Str → Optio
 inductive COut
   | absent                 -- not found, no error
   | err                    -- any error of the decoder (ValidateParameter wraps it into a RequestError)
-  | missingErr             -- "parameter %q is required, but missing": an error, not ErrInvalidRequired
   | val (v : Val)          -- found
   deriving DecidableEq, Repr
 
-/-- `cookieErrLeak` = the code: in the cookie branch the named result `err` keeps `http.ErrNoCookie` when the cookie is
-absent (`found = false` is set, `err` is not cleared), so an absent *optional* cookie parameter leaves
-decodeContentParameter with an error (finding F-C05-10); the specification passes `false` -/
-def decodeContent (unm : Str → Option Val) (cookieErrLeak : Bool) (p : CParam) (r : Req) : COut :=
+/-- decodeContentParameter + defaultContentParameterDecoder. An absent parameter is plain absence in every location
+(the cookie branch clears `http.ErrNoCookie`, commit c3da93a); whether it is required is ValidateParameter's business
+(commit ea25ec8) -/
+def decodeContent (unm : Str → Option Val) (p : CParam) (r : Req) : COut :=
   match contentValues p.loc p.name r with
-  | none => if p.required then .missingErr else if cookieErrLeak && p.loc = .cookie then .err else .absent
+  | none => .absent
   | some values =>
     if values.length > 1 && p.loc ≠ .query then .err        -- "cannot have multiple values"
     else if p.media.length ≠ 1 then .err                     -- "multiple content types"
@@ -83,24 +82,16 @@ def decodeContent (unm : Str → Option Val) (cookieErrLeak : Bool) (p : CParam)
         | none => .err
         | some vs => .val (.arr vs))
 
-/-- ValidateParameter for a content-described parameter. `sentinel` = the specification's flavour: a missing required
-parameter is reported as `missing` (ErrInvalidRequired, as the function documents); the code returns a bare error
-from decodeContentParameter instead (finding F-C05-9), and an absent optional cookie is accepted (F-C05-10). -/
-def validateContent (unm : Str → Option Val) (visit : Sch → Val → Bool) (sentinel : Bool) (p : CParam) (r : Req) : Verdict :=
-  match decodeContent unm (!sentinel) p r with
-  | .absent => .accept
+/-- ValidateParameter for a content-described parameter: an absent required parameter is `missing`
+(ErrInvalidRequired), an absent optional one is accepted -/
+def validateContent (unm : Str → Option Val) (visit : Sch → Val → Bool) (p : CParam) (r : Req) : Verdict :=
+  match decodeContent unm p r with
+  | .absent => if p.required then .missing else .accept
   | .err => .other
-  | .missingErr => if sentinel then .missing else .other
   | .val v =>
     if v.isNilValue then (if !p.allowEmpty then .empty else .accept)
     else match p.schema with
       | none => .accept
       | some s => if visit s v then .accept else .schema
-
-/-- F-C05-9 -/
-def ContentMissing (p : CParam) (r : Req) : Bool := p.required && (contentValues p.loc p.name r).isNone
-
-/-- F-C05-10 -/
-def ContentCookieAbsent (p : CParam) (r : Req) : Bool := !p.required && p.loc = .cookie && r.cookie.isNone
 
 end KinModel.Style
